@@ -393,7 +393,9 @@ where
         let r = match self.refs.get(old.id)? {
             XRef::Free { .. } => panic!(),
             XRef::Raw { gen_nr, .. } => PlainRef { id: old.id, gen: gen_nr },
-            XRef::Stream { .. } => return self.create(obj),
+            // an object stored in an object stream is replaced by an ordinary object with the
+            // same number (compressed objects always have generation 0)
+            XRef::Stream { .. } => PlainRef { id: old.id, gen: 0 },
             XRef::Promised => PlainRef { id: old.id, gen: 0 },
             XRef::Invalid => panic!()
         };
